@@ -1005,6 +1005,44 @@ func (h *histRun) checkCountersAll() {
 	}
 }
 
+// deletedSubLives reports whether the connection's subscription on rid is not
+// (or no longer) listed as subscriber by the cache although it is loaded: it
+// received a delete event and lives on (finding C).
+func (h *histRun) deletedSubLives(cid, rid string) bool {
+	name, q := ridName(rid)
+	for _, e := range h.g.Svc.VerifCache().VerifSnapshot() {
+		if e.Name != name {
+			continue
+		}
+		rss := []*rescache.VerifRS{e.Base}
+		for _, rs := range e.Queries {
+			rss = append(rss, rs)
+		}
+		for _, rs := range rss {
+			if rs == nil || rs.Query != q {
+				continue
+			}
+			for _, sub := range rs.Subs {
+				if sub.CID == cid && sub.RID == rid {
+					return false
+				}
+			}
+		}
+	}
+	return true
+}
+
+// noteRIDs lists the resource ids the hook site was noted for on the connection.
+func (h *histRun) noteRIDs(site, cid string) []string {
+	var out []string
+	for _, n := range verifhook.Notes() {
+		if n.Site == site && strings.HasPrefix(n.Detail, cid+" ") {
+			out = append(out, n.Detail[len(cid)+1:])
+		}
+	}
+	return out
+}
+
 func (h *histRun) hasNote(site, cid, rid string) bool {
 	want := cid + " " + rid
 	for _, n := range verifhook.Notes() {
@@ -1174,6 +1212,11 @@ func (h *histRun) checkQuiescent(final bool) {
 						// had received a delete event; it then lives on as a
 						// normal one, outside the cache, released twice
 						sig = "directMismatch.unsendRevived"
+					} else if h.hadDelete(rid) {
+						if hs, ok := snap.Subs[rid]; !ok || hs.State == 6 || !hs.HasRS || h.deletedSubLives(c.CID, rid) {
+							// finding C: the subscription outlived its delete event
+							sig = "directMismatch.afterDelete"
+						}
 					}
 					h.viol(Viol{Prop: "C08", Conn: c.Idx, T: now, RID: rid, Sig: sig,
 						Msg: fmt.Sprintf("gateway holds %d direct subscriptions on %s, protocol accounting says %d", hd, rid, rc.Direct[rid])})
